@@ -18,6 +18,12 @@ pub fn run(out: &mut Out, tier: &str, rng: &mut Rng) {
     let red = gen::tokens_reduced();
     let firsts = gen::first_tokens();
     for s in crate::corpus::REGRESS.iter() { let b = s.as_bytes(); out.case("locale", &[b], || locale::locale(b)); out.case("langid", &[b], || langid::langid(b)); }
+    for s in crate::corpus::REALWORLD.iter() {
+        let b = s.as_bytes();
+        out.case("locale", &[b], || locale::locale(b)); out.case("langid", &[b], || langid::langid(b));
+        out.case("li_canonicalize", &[b], || langid::li_canonicalize(b)); out.case("loc_canonicalize", &[b], || locale::loc_canonicalize(b));
+        out.case("li_roundtrip", &[b], || langid::li_roundtrip(b)); out.case("facade", &[b], || facade(b));
+    }
     for f in firsts.iter().take(6) { for a in red.iter() { for b in red.iter() {
         let s = gen::join(&[f, a, b], rng.next());
         out.case("locale", &[&s], || locale::locale(&s));
@@ -30,6 +36,7 @@ pub fn run(out: &mut Out, tier: &str, rng: &mut Rng) {
         let s = gen::render(rng, &toks);
         out.case("locale", &[&s], || locale::locale(&s));
         out.case("loc_canonicalize", &[&s], || locale::loc_canonicalize(&s));
+        out.case("li_canonicalize", &[&s], || langid::li_canonicalize(&s));
         out.case("loc_roundtrip", &[&s], || locale::loc_roundtrip(&s));
         out.case("facade", &[&s], || facade(&s));
         let m = gen::mutate(rng, &s);
